@@ -28,7 +28,7 @@ ASSUMPTIONS = ['the 10 % accuracy claim is asserted when at least five participa
                'accuracy (10 %) is evaluated over the span of the populations that took part in the fit',
                'curve equality between equivalent runs: rel. 1e-6']
 BUDGET = {
-    'quick': dict(examples=160, time_s=420, shrink=False),
+    'quick': dict(examples=320, time_s=420, shrink=False),
     'thorough': dict(examples=1500, time_s=3000, shrink=True, shrink_cap_s=240),
 }
 
@@ -53,6 +53,8 @@ def _case(draw):
     else:
         sizes = [draw(st.integers(200, 800)) for _ in range(npop)]
     blank = draw(st.booleans())
+    # how far below the dimmest stained bead the blank sits (i.e. how small the autofluorescence is)
+    blank_step = draw(st.sampled_from([None, 10.0, 20.0, 30.0, 30.0, 40.0])) if (blank and variant == 'float') else None
     # a population may pile up at a detector limit in some channels only
     piled = [draw(st.sampled_from([None, None, None, 'brightest', 'dimmest'])) for _ in range(nch)]
     unknown = {}
@@ -68,7 +70,7 @@ def _case(draw):
         clustering = draw(st.lists(st.integers(0, nch - 1), min_size=1, max_size=nch - 1, unique=True))
     else:
         clustering = list(range(nch))
-    return dict(variant=variant, npop=npop, nch=nch, R=R, laws=laws, sizes=sizes, regime=regime, blank=blank, piled=piled,
+    return dict(blank_step=blank_step, variant=variant, npop=npop, nch=nch, R=R, laws=laws, sizes=sizes, regime=regime, blank=blank, piled=piled,
                 unknown=unknown, clustering=clustering, cv=draw(st.floats(0.02, 0.05)),
                 statistic=draw(st.sampled_from(['median', 'mean'])), data_seed=draw(st.integers(0, 2 ** 20)),
                 np_seed=draw(st.integers(0, 2 ** 20)), perm_seed=draw(st.integers(0, 2 ** 20)))
@@ -118,7 +120,7 @@ def synth(case):
         if case['blank']:
             # blank population: MEF 0, RFI given by the autofluorescence; it sits one ladder step (ratio 3.4..4,
             # so that the autofluorescence stays below half the dimmest bead's MEF) under the dimmest bead
-            rfi[0] = rfi[1] / (3.4 + 0.6 * law['auto_frac'] / 0.5)
+            rfi[0] = rfi[1] / (case.get('blank_step') or (3.4 + 0.6 * law['auto_frac'] / 0.5))
             if int_log:
                 rfi[0] = max(rfi[0], 2.5)
             auto = math.exp(b) * rfi[0] ** m
@@ -244,6 +246,12 @@ def check(case, obs):
         true_stat = np.array([float(stat(col[labels == k])) for k in range(npop)])
         unk = {p for p, _ in case['unknown'].get(str(c), [])}
         keep = [k for k in range(npop) if k not in unk and k != piled_idx]
+        if case.get('blank_step') and case['blank'] and 0 in keep and len(sel_mef) == len(keep) - 1 and len(sel_mef) and sel_mef[0] != 0:
+            # a blank that far below the stained beads can lie within 1.5 % of the display range's lower end, where the
+            # selection step discards a population like one piled up at the limit (documented in selection_std); the
+            # dim-blank cases accept either outcome for the blank, and everything else is checked on what took part
+            keep = keep[1:]
+            obs.exclude('dim_blank_discarded_at_display_edge')
         exp_mef = np.array([info[c]['mef'][k] for k in keep])
         exp_rfi = true_stat[keep]
         obs.claim('exclusion', len(sel_mef) == len(keep),
